@@ -12,16 +12,38 @@ inductive Tid where
   | k (i : Nat)
 deriving DecidableEq, Repr, Inhabited
 
+/-- error classes (error text is never compared) -/
+inductive Err where
+  | ok
+  | eof      -- io.EOF
+  | full     -- bufio.ErrBufferFull
+  | insuf    -- ErrBufferInsufficientData
+  | nouse    -- harness-level: `wfill`/`use` without a slice/view, a frame used as a call
+deriving DecidableEq, Repr, Inhabited
+
 /-- One API call of a thread program.  `wfill` (the producer writes the stream
 into the slice `WriteWait` handed out) and `use` (the consumer reads the bytes of
 the view `ReadPeek`/`ReadWait` handed out) are the caller's own accesses to ring
 memory between two calls.  `wcommit n` commits `min n (bytes filled)`, `commit n` commits
-`min n (bytes used)`: a caller commits only what it has written resp. looked at. -/
+`min n (bytes used)`: a caller commits only what it has written resp. looked at.
+
+`rfrom tot ms` is a whole `ReadFrom(r)`: `tot` = bytes read so far (0 in a thread program),
+`ms` = the script of the reader `r`: its k-th `Read(p)` returns `min ms[k] (len p)` bytes and
+no error, after the script `(0, io.EOF)`.  `ReadFrom` is the only ring method that calls other
+ring methods while it has live locals of its own; while it is inside such a call the model keeps
+these locals in the `cur` field of the thread as a FRAME: `rfrom tot ms` while inside
+`waitForWriteSpace(1)`, `rfcommit tot ms` while inside `WriteCommit(n)` (`tot` already includes
+`n`, `ms` is the rest of the script), `rfret n e` while the deferred `Close` runs (`(n, e)` = the
+values `ReadFrom` returns).  As calls of a thread program the two frame-only constructors are
+no ring calls (they return `nouse` at once). -/
 inductive Call where
   | write (n : Nat)
   | wwait (n : Nat)
   | wfill
   | wcommit (n : Nat)
+  | rfrom (tot : Nat) (ms : List Nat)
+  | rfcommit (tot : Nat) (ms : List Nat)
+  | rfret (n : Nat) (e : Err)
   | read (n : Nat)
   | peek (n : Nat)
   | rwait (n : Nat)
@@ -31,17 +53,8 @@ inductive Call where
   | len
 deriving DecidableEq, Repr, Inhabited
 
-/-- error classes (error text is never compared) -/
-inductive Err where
-  | ok
-  | eof      -- io.EOF
-  | full     -- bufio.ErrBufferFull
-  | insuf    -- ErrBufferInsufficientData
-  | nouse    -- harness-level: `wfill`/`use` without a slice/view
-deriving DecidableEq, Repr, Inhabited
-
 def Call.isProducer : Call → Bool
-  | .write _ | .wwait _ | .wfill | .wcommit _ => true
+  | .write _ | .wwait _ | .wfill | .wcommit _ | .rfrom _ _ | .rfcommit _ _ | .rfret _ _ => true
   | _ => false
 
 def Call.isConsumer : Call → Bool
